@@ -128,6 +128,10 @@ class CalculationService(BaseSubscriber):
         for projector in self.__projections.get_projectors():
             if not isinstance(projector.effect, WarfareBuffEffect):
                 continue
+            # Buffs which have no modifiers registered are not applied to
+            # anything (and are not unapplied when they stop)
+            if projector not in self.__warfare_buffs:
+                continue
             projector_fit = projector.item._fit
             # Affect this fit by buffs existing in fleet. Its own buffs affect
             # it regardless of fleet membership
@@ -160,6 +164,8 @@ class CalculationService(BaseSubscriber):
         fits_effect_unapplications = {}
         for projector in self.__projections.get_projectors():
             if not isinstance(projector.effect, WarfareBuffEffect):
+                continue
+            if projector not in self.__warfare_buffs:
                 continue
             projector_fit = projector.item._fit
             # Unaffect this fit by buffs existing in fleet. Its own buffs keep
